@@ -112,10 +112,10 @@ RaiseVal(kv, q, u, row) ==      \* values of degree q-1  ->  values of degree q
       LET i  == j - 1
           d1 == Kn(kv, i + q) - Kn(kv, i)
           d2 == Kn(kv, i + q + 1) - Kn(kv, i + 1)
-          t1 == IF d1 = 0 \/ IsZero(row[j]) THEN Zero
-                ELSE Mul(Div(Sub(u, R(Kn(kv, i))), R(d1)), row[j])
+          t1 == IF d1 = 0 \/ IsZero(row[j]) THEN Zero            \* (u - t_i)/d1 = (u1 - u2 t_i)/(u2 d1), u = u1/u2
+                ELSE Mul(Q(u[1] - u[2] * Kn(kv, i), u[2] * d1), row[j])
           t2 == IF d2 = 0 \/ IsZero(row[j + 1]) THEN Zero
-                ELSE Mul(Div(Sub(R(Kn(kv, i + q + 1)), u), R(d2)), row[j + 1])
+                ELSE Mul(Q(u[2] * Kn(kv, i + q + 1) - u[1], u[2] * d2), row[j + 1])
       IN Add(t1, t2))
 
 RaiseDer(kv, q, row) ==         \* (k-1)-th derivatives of degree q-1  ->  k-th derivatives of degree q
@@ -123,9 +123,9 @@ RaiseDer(kv, q, row) ==         \* (k-1)-th derivatives of degree q-1  ->  k-th 
       LET i  == j - 1
           d1 == Kn(kv, i + q) - Kn(kv, i)
           d2 == Kn(kv, i + q + 1) - Kn(kv, i + 1)
-          t1 == IF d1 = 0 \/ IsZero(row[j]) THEN Zero ELSE Div(row[j], R(d1))
-          t2 == IF d2 = 0 \/ IsZero(row[j + 1]) THEN Zero ELSE Div(row[j + 1], R(d2))
-      IN Mul(R(q), Sub(t1, t2)))
+          t1 == IF d1 = 0 \/ IsZero(row[j]) THEN Zero ELSE Mul(row[j], Q(q, d1))
+          t2 == IF d2 = 0 \/ IsZero(row[j + 1]) THEN Zero ELSE Mul(row[j + 1], Q(q, d2))
+      IN Sub(t1, t2))
 
 BasisRow(kv, q, u) ==           \* <<N_{0,q}(u), .., N_{n-1,q}(u)>>
   FoldLeft(LAMBDA r, m : RaiseVal(kv, m, u, r), Row0(kv, u), Ints(q))
@@ -168,7 +168,7 @@ SplineEval(kv, p, k, coeffs, u) == Dot(coeffs, DerivRow(kv, p, k, u))      \* D^
 (* knot insertion (Boehm) and prolongation between nested knot vectors *)
 InsertKnot(kv, t) ==            \* kv with the integer knot t inserted (sorted)
   LET c == Cardinality({j \in 1..Len(kv) : kv[j] <= t})
-  IN [j \in 1..(Len(kv) + 1) |-> IF j <= c THEN kv[j] ELSE IF j = c + 1 THEN t ELSE kv[j - 1]]
+  IN Tab(Len(kv) + 1, LAMBDA j : IF j <= c THEN kv[j] ELSE IF j = c + 1 THEN t ELSE kv[j - 1])
 
 (* (n+1) x n matrix (sequence of rows) mapping coefficients w.r.t. kv to coefficients w.r.t. InsertKnot(kv,t):
    new_i = a_i old_i + (1 - a_i) old_{i-1},  a_i = 1 (i <= k-p), (t - t_i)/(t_{i+p} - t_i) (k-p < i <= k), 0 (i > k),
@@ -193,9 +193,15 @@ NewKnots(kv1, kv2) ==           \* the knots to insert, ascending, with repetiti
   IN FoldLeft(LAMBDA acc, m : acc \o [x \in 1..(KMult(kv2, ts[m]) - KMult(kv1, ts[m])) |-> ts[m]], <<>>, Ints(Len(ts)))
 
 (* prolongation matrix NumDofs(kv2) x NumDofs(kv1): composition of Boehm steps, knots inserted in ascending order *)
+MatMulT(A, B) ==            \* A * B as explicit tuples (Rat.MatMul is lazy: repeated products would recompute)
+  Tab(Len(A), LAMBDA i : Tab(Len(B[1]), LAMBDA j :
+      FoldLeft(LAMBDA acc, r : IF IsZero(A[i][r]) \/ IsZero(B[r][j]) THEN acc ELSE Add(acc, Mul(A[i][r], B[r][j])),
+               Zero, Ints(Len(B)))))
 ProlongState(kv1, p, ts) ==
-  FoldLeft(LAMBDA st, m : [kv |-> InsertKnot(st.kv, ts[m]), P |-> MatMul(InsMat(st.kv, p, ts[m]), st.P)],
-           [kv |-> kv1, P |-> IdMat(NumDofs(kv1, p))], Ints(Len(ts)))
+  FoldLeft(LAMBDA st, m : [kv |-> InsertKnot(st.kv, ts[m]),
+                           P |-> MatMulT(InsMat(st.kv, p, ts[m]), st.P)],
+           [kv |-> kv1, P |-> Tab(NumDofs(kv1, p), LAMBDA i : Tab(NumDofs(kv1, p), LAMBDA j : IF i = j THEN One ELSE Zero))],
+           Ints(Len(ts)))
 Prolong(kv1, kv2, p) == ProlongState(kv1, p, NewKnots(kv1, kv2)).P
 
 -------------------------------------------------------------------------------
@@ -212,14 +218,14 @@ ToAxisOrder(X)     == [a \in 1..Len(X) |-> X[Len(X) + 1 - a]]       \* xyz point
 
 (* D^ks of the tensor-product spline with flat coefficients `coeffs`, at the point whose axis-a parameter is us[a];
    ks[a] = derivative order along axis a.  rows[a] = DerivRow(kvs[a], ps[a], ks[a], us[a]).                        *)
-TPContract(rows, shape, coeffs) ==
-  LET nn == ShapeSize(shape) IN
+MultiIndices(shape) == Tab(ShapeSize(shape), LAMBDA I : UnravelC(I - 1, shape))     \* [I] = 0-based multi-index of flat I
+TPContractMI(rows, mis, coeffs) ==      \* mis = MultiIndices(shape), precomputed by the caller
   FoldLeft(LAMBDA acc, I :
              IF IsZero(coeffs[I]) THEN acc ELSE
-             LET mi == UnravelC(I - 1, shape)
-                 w  == FoldLeft(LAMBDA pr, a : IF IsZero(pr) THEN pr ELSE Mul(pr, rows[a][mi[a] + 1]), One, Ints(Len(shape)))
+             LET w == FoldLeft(LAMBDA pr, a : IF IsZero(pr) THEN pr ELSE Mul(pr, rows[a][mis[I][a] + 1]), One, Ints(Len(rows)))
              IN IF IsZero(w) THEN acc ELSE Add(acc, Mul(coeffs[I], w)),
-           Zero, Ints(nn))
+           Zero, Ints(Len(mis)))
+TPContract(rows, shape, coeffs) == TPContractMI(rows, MultiIndices(shape), coeffs)
 TPEval(kvs, ps, coeffs, ks, us) ==
   TPContract(Tab(Len(kvs), LAMBDA a : DerivRow(kvs[a], ps[a], ks[a], us[a])), TPShape(kvs, ps), coeffs)
 TPBasis(kvs, ps, mi, ks, us) ==   \* D^ks of the tensor-product basis function with 0-based multi-index mi
